@@ -181,7 +181,7 @@ PROPS = {
         "no_panic": ["promise "],
     },
     "C06": {
-        "modules": ["Capnp.Props.C06"],
+        "modules": ["Capnp.Props.C06", "Capnp.Props.C06Q"],
         "gen": False,
         "confirm": True,
         "rule": "scripts of 4-17 peer messages / application returns on a real rpc.Conn over an in-memory transport whose peer is the script "
@@ -190,27 +190,32 @@ PROPS = {
                 "shutdowns of local capabilities are compared with the model's (M); mixed scripts in both directions (local Bootstrap / calls / pipelined "
                 "calls / handle release / cancel, peer Returns with capabilities, Disembargo) judged by oracles computed from the wire log: a Return only "
                 "for an outstanding call, never two; question ids not reused before their Finish; Release counts; per-capability delivery order = send "
-                "order; every local call resolves once; everything released once; wind-down terminates (S).",
+                "order; every local call resolves once; everything released once; wind-down terminates (S); outbound scripts of 3-20 local operations "
+                "(Bootstrap, calls on handles resolved or not, pipelined calls on calls returned or not, handles taken from results, releases of "
+                "handles and results, cancellation, Close) and peer Returns (existing / cancelled / unknown questions, struct / capability / exception, "
+                "senderHosted / senderPromise / null / unknown descriptors): messages sent, resolutions and the import table compared with "
+                "Model.RpcQ after every operation (M).",
         "trusted": COMMON_TRUSTED + ["each message is handled atomically by the single receive goroutine (true of rpc.go); the model's step is that handling run to quiescence",
-                                     "question side, embargoes and disembargo are covered by the oracle stream only",
+                                     "outbound half (Model.RpcQ): one event = one local API call or one Return run to quiescence; descriptors naming the Conn's own exports (loop-back, embargo, Disembargo) are outside it and covered by the oracle stream only",
                                      "local capabilities behave as the harness's (methods 0-5)"],
         "assumptions": ["no transport faults (C09)"],
         "shards": {"quick": 4, "thorough": 16},
-        "no_panic": ["rpc "],
+        "no_panic": ["rpc ", "rpcq "],
     },
     "C07": {
-        "modules": ["Capnp.Props.C07"],
+        "modules": ["Capnp.Props.C07", "Capnp.Props.C07Q"],
         "gen": False,
         "confirm": True,
         "rule": "mixed rpc scripts heavy in capability traffic (capabilities in params and results in both directions, the same capability sent "
                 "repeatedly, partial and full Release, Finish with releaseResultCaps, handles taken from results and released, Close at any point), "
                 "oracles: Release(id, n) carries exactly the number of descriptors received for id since the last Release; no delivery to a local "
                 "capability after its shutdown; after Close and release of the harness's handles every local capability was shut down exactly once; "
-                "no goroutine left (S).",
-        "trusted": COMMON_TRUSTED + ["import-side counting (generation race) is covered by the oracle stream only"],
+                "no goroutine left (S); outbound scripts as in C06 compared with Model.RpcQ after every operation, import table (id=wireRefs) "
+                "and Release messages included (M).",
+        "trusted": COMMON_TRUSTED + ["import-side counting is modelled sequentially (Model.RpcQ); the generation race (a reference arriving while the last handle is being released) is covered by the oracle stream and directed scripts only"],
         "assumptions": [],
         "shards": {"quick": 4, "thorough": 16},
-        "no_panic": ["rpc "],
+        "no_panic": ["rpc ", "rpcq "],
     },
     "C08": {
         "modules": ["Capnp.Props.C08"],
@@ -223,7 +228,7 @@ PROPS = {
         "trusted": COMMON_TRUSTED + ["raw corruptions exercise the decoder glue; only the table logic is modelled"],
         "assumptions": [],
         "shards": {"quick": 4, "thorough": 16},
-        "no_panic": ["rpc "],
+        "no_panic": ["rpc ", "rpcq "],
     },
     "C09": {
         "modules": ["Capnp.Props.C09", "Capnp.Gen.Locks"],
@@ -241,7 +246,7 @@ PROPS = {
                                      "'bounded time' is observed as deadlines of the harness, not proved"],
         "assumptions": ["goroutine-level interleavings between critical sections are sampled by the stream, not enumerated"],
         "shards": {"quick": 4, "thorough": 16},
-        "no_panic": ["rpc "],
+        "no_panic": ["rpc ", "rpcq "],
     },
     "C15": {
         "modules": ["Capnp.Props.C15"],
